@@ -124,7 +124,9 @@ func c15Eval(args []string) error {
 	mine := func() bool { idx++; return idx%*nshards == *shard }
 
 	// ---- ordered comparisons: numbers --------------------------------------------------------
-	nums := []string{"", "0", "-1", "18", "18.0", "18.5", "17.999", "1000000", "0.10", "-0.5"}
+	// "T:..." = the field holds a text that is not a number (a value typed before the field became a number field): for
+	// a number property the value is missing
+	nums := []string{"", "0", "-1", "18", "18.0", "18.5", "17.999", "1000000", "0.10", "-0.5", "T:old enough", "T:18 years"}
 	qnums := []string{"18", "18.0", "0", "-1", "18.50", "100", "0.1", "1e2", "007"}
 	envU := envs.NewBuilder().Build()
 	for _, prop := range []string{"age", "fields.age", "tickets"} {
@@ -148,6 +150,9 @@ func c15Eval(args []string) error {
 					}
 				} else if cv == "" {
 					present = false
+				} else if strings.HasPrefix(cv, "T:") {
+					present = false
+					extra["fields"] = M{"age": M{"text": cv[2:]}}
 				} else {
 					extra["fields"] = M{"age": M{"text": cv, "number": cv}}
 					cdec = decimal.RequireFromString(cv)
@@ -221,6 +226,8 @@ func c15Eval(args []string) error {
 							case "joined":
 								if !absent {
 									extra["fields"] = M{"joined": M{"text": stored, "datetime": stored}}
+								} else if (zi+fi)%2 == 0 {
+									extra["fields"] = M{"joined": M{"text": "some day"}} // a text that is not a date: missing as a date
 								}
 							case "created_on":
 								extra["created_on"] = stored
@@ -332,6 +339,7 @@ func c15Eval(args []string) error {
 		{},
 		{"fields": M{"age": M{"text": "18", "number": "18"}, "gender": M{"text": "Male"}, "joined": M{"text": "2020-05-01T10:00:00Z", "datetime": "2020-05-01T10:00:00Z"}}},
 		{"fields": M{"age": M{"text": "19.5", "number": "19.5"}}, "urns": []string{"tel:+12065550001", "tel:+12065550002"}, "last_seen_on": "2019-06-01T00:00:00Z"},
+		{"fields": M{"age": M{"text": "old enough"}, "joined": M{"text": "some day"}, "state": M{"text": "nowhere"}, "gender": M{"text": "x"}}, "urns": []string{"tel:+12065550002", "tel:+12065550001"}},
 		{"name": nil, "language": nil, "urns": []string{}, "ticket": M{"uuid": "1ae96956-4b34-433e-8d1a-f05fe6923d6d", "topic": M{"uuid": topicGen, "name": "General"}}},
 	}
 	for i := 0; i < *nbool / *nshards; i++ {
